@@ -745,9 +745,117 @@ def status_corners_stream(ctx, res):
                 res.violate("C12:reset", "after reset_value the field is still reported as user-defined (it held a value its default describes)", dict(case, key=k))
 
 
+def keywords_and_deep_defaults_stream(ctx, res):
+    """(a) constructor keywords are assignments: a keyword of a DYNAMIC configuration (plain and config type) that names no declared field
+    is held, rendered and user-defined like after `cfg.extra = v` (falsy values included), and a keyword that names no field of a
+    strict schema is refused; (b) a list default that holds ready-made configuration objects whose own fields are containers of
+    containers: what configuration #1 changes two levels down shows neither in a configuration built afterwards, nor after a reset
+    of the list or of the enclosing section (the second item, not only the first)"""
+    import cincoconfig as cc
+    # (a)
+    for typed in (False, True):
+        for value in (5, 0, "", [1, 2], False, None):
+            s = cc.Schema(dynamic=True)
+            s.port = cc.IntField(default=80)
+            s.sub.name = cc.StringField(default="n")
+            T = cc.make_type(s, "KwDyn") if typed else s
+            case = {"stream": "keywords", "config_type": typed, "value": repr(value)}
+            res.case(stable(case), kind="keywords:dynamic")
+            try:
+                cfg = T(extra=value, port=81)
+                by_attr = T()
+                by_attr.extra = value
+                by_attr.port = 81
+                got = (cfg.extra, "extra" in cfg.to_tree(), cc.is_value_defined(cfg, "extra"), cfg.port, cfg.to_tree())
+                want = (by_attr.extra, "extra" in by_attr.to_tree(), cc.is_value_defined(by_attr, "extra"), by_attr.port, by_attr.to_tree())
+            except Exception as e:  # noqa
+                res.violate("C12:keyword-not-assigned", "constructing a dynamic configuration with a keyword for an undeclared field raised %s" % type(e).__name__, dict(case, error=str(e)[:100]))
+                continue
+            if got != want:
+                res.violate("C12:keyword-not-assigned", "a constructor keyword of a dynamic configuration that names no declared field is not held / rendered / user-defined like after "
+                            "the same assignment by attribute", dict(case, by_keyword=repr(got)[:200], by_attribute=repr(want)[:200]))
+        strict = cc.Schema()
+        strict.port = cc.IntField(default=80)
+        ST = cc.make_type(strict, "KwStrict") if typed else strict
+        res.case(stable(["keywords-strict", typed]), kind="keywords:strict")
+        try:
+            ST(prot=81)
+            res.violate("C12:keyword-not-assigned", "a keyword that names no field of a non-dynamic schema was accepted silently", {"stream": "keywords", "config_type": typed, "keyword": "prot"})
+        except Exception:  # noqa
+            pass
+    # (a') resetting a section restores the section: fields that were added to it (or below it) on the fly are gone with their values
+    for key in ("db", "db.options"):
+        for times in (1, 2):
+            d = cc.Schema()
+            d.db.host = cc.StringField(default="h")
+            d.db.options = cc.Schema(dynamic=True)
+            d.db.options.timeout = cc.IntField(default=5)
+            cfg = d()
+            cfg.db.host = "other"
+            cfg.db.options.timeout = 9
+            cfg.db.options.retries = 3
+            cfg.db.options.label = ""
+            case = {"stream": "reset-section", "key": key, "times": times}
+            res.case(stable(case), kind="reset-section")
+            try:
+                for _ in range(times):
+                    cc.reset_value(cfg, key)
+                opts = cfg.db.options
+                got = (opts.retries, "retries" in opts.to_tree(), "label" in opts.to_tree(), opts.timeout, cfg.db.host)
+            except Exception as e:  # noqa
+                res.violate("C12:reset", "resetting a section raised %s" % type(e).__name__, dict(case, error=str(e)[:100]))
+                continue
+            want = (None, False, False, 5, "h" if key == "db" else "other")
+            if got != want:
+                res.violate("C12:reset", "after resetting a section, fields that had been added to it on the fly (or its declared fields) still hold their values",
+                            dict(case, got=repr(got), want=repr(want)))
+    # (b)
+    row = cc.Schema()
+    row.name = cc.StringField(default="r")
+    row.matrix = cc.ListField(cc.ListField(cc.IntField()), default=lambda: [])
+    row.labels = cc.ListField(cc.DictField(cc.StringField(), cc.IntField()), default=lambda: [])
+    row.by_zone = cc.DictField(cc.StringField(), cc.ListField(cc.StringField()), default=dict)
+    Row = cc.make_type(row, "DeepRow")
+    s = cc.Schema()
+    s.sec.table = cc.ListField(Row, default=[Row(name="first", matrix=[[0]], labels=[{"z": 0}], by_zone={"eu": ["x"]}),
+                                              Row(name="second", matrix=[[1, 2], [3]], labels=[{"a": 1}], by_zone={"us": ["y"]})])
+    want = [{"name": "first", "matrix": [[0]], "labels": [{"z": 0}], "by_zone": {"eu": ["x"]}}, {"name": "second", "matrix": [[1, 2], [3]], "labels": [{"a": 1}], "by_zone": {"us": ["y"]}}]
+    for how in ("later-configuration", "reset-list", "reset-section", "reset-twice"):
+        case = {"stream": "deep-defaults", "how": how}
+        res.case(stable(case), kind="deep-defaults")
+        try:
+            a = s()
+            it = a.sec.table[1]
+            it.matrix[0].append(99)
+            it.matrix[1].append(77)
+            it.labels[0]["b"] = 2
+            it.by_zone["us"].append("only-a")
+            a.sec.table[0].matrix[0].append(5)
+            if how == "later-configuration":
+                other = s()
+            elif how == "reset-list":
+                cc.reset_value(a, "sec.table")
+                other = a
+            elif how == "reset-section":
+                cc.reset_value(a, "sec")
+                other = a
+            else:
+                cc.reset_value(a, "sec.table")
+                other = a
+                other.sec.table[1].matrix[0].append(100)
+                cc.reset_value(a, "sec.table")
+            got = other.to_tree()["sec"]["table"]
+        except Exception as e:  # noqa
+            res.violate("C12:default-not-restored:deep", "building / resetting a list default of configuration objects raised %s" % type(e).__name__, dict(case, error=str(e)[:100]))
+            continue
+        if got != want:
+            res.violate("C12:default-not-restored:deep", "a change made two levels below an item of a list default (through one configuration) shows in a configuration built "
+                        "afterwards / after a reset: the declared default was changed", dict(case, got=repr(got)[:300]))
+
+
 def run(ctx, n_quick=250, n_thorough=8000):
     res = Result()
-    P.run_stream(ctx, res, "C12", ctx.n(n_quick, n_thorough), oracle, gen_ops=gen_ops)
+    guard(res, "C12", lambda: P.run_stream(ctx, res, "C12", ctx.n(n_quick, n_thorough), oracle, gen_ops=gen_ops))
     guard(res, "C12", callable_stream, ctx, res, ctx.n(3, 30))
     guard(res, "C12", callable_kinds_stream, ctx, res)
     guard(res, "C12", unnormalised_default_stream, ctx, res)
@@ -757,6 +865,7 @@ def run(ctx, n_quick=250, n_thorough=8000):
     guard(res, "C12", mutable_default_stream, ctx, res, ctx.n(40, 1500))
     guard(res, "C12", challenge_default_stream, ctx, res, ctx.n(20, 400))
     guard(res, "C12", status_corners_stream, ctx, res)
+    guard(res, "C12", keywords_and_deep_defaults_stream, ctx, res)
     return res
 
 
